@@ -238,7 +238,9 @@ CHECKS = {
          "empty, long, all byte values, and the setting's own string passed back in —, the include directory likewise, a member "
          "overridden under its own name string; the harness overwrites the caller's buffers after each call, holds strings the "
          "library handed out (values, names, include directory) across unrelated activity and compares them afterwards, all under "
-         "ASan/LSan, which is what observes the copy/lifetime part of the property on the real code."),
+         "ASan/LSan, which is what observes the copy/lifetime part of the property on the real code. Hooks under allocation faults: every "
+         "allocation of an override/remove/re-read history fails in turn with a handler that jumps out of the library; after "
+         "config_destroy every attached hook has been released exactly once."),
    note=TB + "String-handle lifetime is observed by ASan and the held-string comparison on the implementation, not modelled (the model has value semantics). One defect repaired (a library-owned string passed back in was read after being freed: 3 sites).",
    technique='conservation law (multiset of live hooks) proved in Lean 4 by induction, including the parser loop; differential correspondence on destructor logs', ref='§5 C16'),
  'C17': dict(
